@@ -70,6 +70,8 @@ def _gen_doc(rng, tier, want_fault=None):
     lay = random_layout(rng, wild=True)
     if rng.random() < 0.5:
         lay["arg_nl"] = rng.choice([0.5, 0.9])
+    if rng.random() < 0.25:
+        lay["exotic_cmt"] = 0.5      # form feeds, U+2028 etc. inside comments: not line breaks for the lexer
     if r < 0.35 and want_fault is None:
         return {"kind": "free", "program": _free_program(rng), "layout": lay}
     # a model document with (usually) one located fault
@@ -466,7 +468,7 @@ def shrink_candidates(sc):
     for i, d in enumerate(sc["docs"]):
         lay = d.get("layout") or {}
         for key in ("blank", "comment", "trail_cmt", "arg_nl", "val_nl", "list_nl", "trail_comma", "space", "quote",
-                    "lead"):
+                    "lead", "exotic_cmt"):
             if lay.get(key):
                 c = clone()
                 c["docs"][i]["layout"][key] = 0 if key == "lead" else 0.0
